@@ -261,8 +261,11 @@ Proof.
   apply negb_false_iff in I, EA1, EA2, EX, ER. apply negb_false_iff in ET.
   apply N.eqb_eq in EA1.
   assert (OCn : other_crit (scenario_of i) = []).
-  { unfold nothing_processes, has_critical, plugin_demanded in NPr. cbn [scenario_of s_plugin_attr] in NPr.
-    rewrite NP in NPr. cbn in NPr. destruct (other_crit (scenario_of i)); [reflexivity | discriminate]. }
+  { unfold nothing_processes, has_critical, plugin_demanded, asked in NPr.
+    rewrite (no_plugin_caps i NP) in NPr. cbn [scenario_of s_plugin_attr] in NPr.
+    rewrite NP in NPr. cbn [negb andb caps_to_verify filter nonempty] in NPr. rewrite andb_true_r in NPr.
+    apply orb_false_iff in NPr. destruct NPr as [NPr _].
+    destruct (other_crit (scenario_of i)); [reflexivity | discriminate]. }
   apply negb_true_iff in ET.
   exact (conj I (conj (auth_pass_anchored i EA1) (conj (identity_pass_matches i EA2)
         (conj (expiry_pass_not_expired i EX) (conj (ts_pass_ok i W6 ET)
